@@ -23,13 +23,15 @@ THEOREMS = [T10 + x for x in (
     "wfcq_refines_fifo", "wfcq_history_exists", "each_node_dequeued_once", "dequeue_order", "state_LAST_correct",
     "enqueue_ret_consistent", "empty_consistent", "dequeue_null_iff_empty_at_some_instant", "null_only_from_empty",
     "splice_moves_all_in_order_and_empties_source", "iteration_exact", "neg_no_wait_loses_node", "neg_empty_head_only",
-    "neg_splice_no_tail_reset", "wfq_is_fifo", "wfq_each_node_once", "C10_full_holds")] + [
+    "neg_splice_no_tail_reset", "wfq_is_fifo", "wfq_each_node_once",
+    "wfq_refines_fifo", "wfq_history_valid", "wfq_each_node_dequeued_once", "wfq_dequeue_order", "wfq_null_only_when_empty",
+    "neg_wfq_stale_dummy_next", "C10_full_holds")] + [
     "UrcuVerif.Wfcq.inv_step", "UrcuVerif.Wfcq.inv_reach", "UrcuVerif.Wfcq.step_refines", "UrcuVerif.Wfcq.hist_valid",
     "UrcuVerif.Wfcq.rep_reach", "UrcuVerif.Wfcq.pndPc_reach", "UrcuVerif.Wfcq.Spec.conservation",
-    "UrcuVerif.Wfq.inv_step", "UrcuVerif.Wfq.inv_reach", "UrcuVerif.Wfq.step_refines"]
+    "UrcuVerif.Wfq.inv_step", "UrcuVerif.Wfq.inv_reach", "UrcuVerif.Wfq.step_refines", "UrcuVerif.Wfq.step_refines_ev",
+    "UrcuVerif.Wfq.hist_valid", "UrcuVerif.Wfq.Spec.conservation", "UrcuVerif.Wfq.Spec.fifo_order"]
 UNPROVED = ["(no unproved Lean statement: UrcuVerif.C10.C10_full is proved as C10_full_holds; NOT a Lean statement and only checked "
-            "on the explored schedules: the event-level correspondence L1 ⊑ L2 between the C text and the models; the legacy cds_wfq has "
-            "step-level refinement + invariant, no history-level `Valid` theorem)"]
+            "on the explored schedules: the event-level correspondence L1 ⊑ L2 between the C text and the models)"]
 T17 = "UrcuVerif.C17Wfcq."
 THEOREMS17 = [T17 + x for x in (
     "enqueue_wait_free", "enqueue_bound_producer", "others_cannot_delay", "nonblocking_never_waits",
